@@ -75,6 +75,26 @@ Theorem C18_rolling : forall l name,
 Proof. exact rolling_skipped. Qed.
 Print Assumptions C18_rolling.
 
+(* ... and over time: one manager, any number of calls, any time between them, whatever it remembers of sets that were
+   not ready - the result of every call names only sets whose update is complete *)
+Theorem C18_rolling_always : forall calls now st k names,
+  nth_error (replicas_hist now st calls) k = Some names ->
+  exists dt l, nth_error calls k = Some (dt, l) /\
+    forall name, In name names -> exists s, In s l /\ st_name s = name /\ st_replicas s = st_updated s.
+Proof. exact rolling_skipped_always. Qed.
+Print Assumptions C18_rolling_always.
+
+Theorem C18_first_call_is_history : forall l, replicas_hist 0 [] [(0, l)] = [replicas_first_call l].
+Proof. exact first_call_is_history. Qed.
+Print Assumptions C18_first_call_is_history.
+
+(* non-vacuity: a set that is not ready is waited for two minutes and then coordinated; one that is updating never is *)
+Example C18_rolling_always_example :
+  let nr := {| st_name := "a"; st_replicas := 3; st_updated := 3; st_ready := 1 |} in
+  let up := {| st_name := "b"; st_replicas := 3; st_updated := 1; st_ready := 3 |} in
+  replicas_hist 0 [] [(0, [nr; up]); (119, [nr; up]); (1, [nr; up]); (100000, [nr; up])] = [[]; []; ["a"]; ["a"]].
+Proof. vm_compute. reflexivity. Qed.
+
 (* non-vacuity: a concrete scale-down 4 -> 2 with two templates deletes exactly four claims *)
 Example C18_example :
   let c := {| spec_replicas := Some 4; templates := ["data"; "wal"];
